@@ -32,10 +32,14 @@ def main():
     props = [json.loads(l) for l in open(os.path.join(ROOT, "properties.jsonl"))]
     ids = [p["id"] for p in props]
     mods = {}
+    # only checks validated on the unchanged tree (listed in ready.txt) are registered
+    ready = set(l.split()[0] for l in open(os.path.join(ROOT, "ready.txt")) if l.strip() and not l.startswith("#"))
     for path in sorted(glob.glob(os.path.join(ROOT, "checks", "c[0-9]*.py"))):
         name = os.path.splitext(os.path.basename(path))[0]
         m = importlib.import_module("checks." + name)
         if getattr(m, "DISABLED", False):
+            continue
+        if m.PROP not in ready:
             continue
         mods[m.PROP] = m
     checks = []
